@@ -40,7 +40,7 @@ PLANS = {
         sim=[("Sim_Core_run.cfg", 80, 600, 40), ("Sim_Core_gated.cfg", 100, 900, 45)],
         dump=("Dump_Core.cfg", 250, 2500),
         random=dict(n=80, n_thorough=800, length=28, with_down=False, with_state_loss=False),
-        invariants=["C01_RestoreEqualsSource", "C01_RestoreIntegrity"],
+        invariants=["C01_RestoreEqualsSource", "C01_RestoreIntegrity", "N_ReadLockWhileOpen"],
         witnesses=["F1", "F2", "F3", "G1", "S1", "Q1", "Q2"],
         nontrivial="distinct schedule with at least one acknowledgement after application writes (restore compared with the source)",
     ),
@@ -51,7 +51,7 @@ PLANS = {
         dump=None,
         random=dict(n=200, n_thorough=1200, length=34, with_down=True, with_state_loss=True),
         directed=True,
-        invariants=["C04_AckMeansReplicaAtLocalPos", "C04_ResnapshotAfterLoss", "C01_RestoreEqualsSource"],
+        invariants=["C04_AckMeansReplicaAtLocalPos", "C04_ResnapshotAfterLoss", "C01_RestoreEqualsSource", "N_ReadLockWhileOpen"],
         witnesses=["F1", "F2", "F3", "S1", "Q1", "Q2"],
         nontrivial="distinct schedule in which litestream was stopped/reset/lost state and application activity happened before the next acknowledgement",
     ),
